@@ -77,7 +77,13 @@ def marg_cases(draw, tier):
     n = d["n"]
     qs = draw(st.permutations(list(range(n))))
     qs = list(qs[: draw(st.integers(1, n))])
-    return {"d": d, "qs": qs, "bad": draw(st.sampled_from([None, None, "range", "dup"])), "normalize": draw(st.sampled_from([True, True, False]))}
+    more = []
+    for _ in range(draw(st.integers(1, 3))):
+        p = list(draw(st.permutations(list(range(n)))))
+        more.append(p[: draw(st.integers(1, n))])
+    if draw(st.booleans()):
+        more.append(list(reversed(qs)))  # the same qubits in another order
+    return {"d": d, "qs": qs, "more": more, "bad": draw(st.sampled_from([None, None, "range", "dup"])), "normalize": draw(st.sampled_from([True, True, False]))}
 
 
 def o_marginal(spec):
@@ -115,6 +121,19 @@ def o_marginal(spec):
     for k, p in want.items():
         require(abs(got[k] - p) <= 1e-9 * scale, lambda: f"marginal on {qs}: P{k} = {got[k]}, expected the accumulated {p}")
     require(dist.distribution_dict == src, lambda: f"subdistribution changed the source distribution: {src} -> {dist.distribution_dict}")
+    # further marginals of the same object (other subsets, the same qubits in another order)
+    for q2 in spec.get("more", []):
+        with warnings.catch_warnings():
+            warnings.simplefilter("ignore")
+            sub2 = must(lambda: dist.subdistribution(list(q2)), f"subdistribution({q2}) after subdistribution({qs})")
+        want2 = {}
+        for k, p in refp.items():
+            nk = tuple(k[i] for i in q2)
+            want2[nk] = want2.get(nk, 0) + p
+        got2 = sub2.distribution_dict
+        require(set(got2) == set(want2) and all(abs(got2[k] - p) <= 1e-9 * max(1.0, max(want2.values())) for k, p in want2.items()),
+                lambda: f"marginal on {q2} requested after the marginal on {qs}: {got2}, expected {want2}")
+        require(dist.distribution_dict == src, "a later subdistribution changed the source distribution")
     if spec["bad"] == "range":
         must_raise(ValueError, lambda: dist.subdistribution([0, d["n"]]), "subdistribution with an out-of-range index")
     elif spec["bad"] == "dup":
@@ -131,6 +150,8 @@ def o_marginal(spec):
         cl.append("multi_digit_outcome")
     if not spec["normalize"]:
         cl.append("normalize_off")
+    if any(sorted(q2) == sorted(qs) and q2 != qs for q2 in spec.get("more", [])):
+        cl.append("same_qubits_other_order")
     return {"classes": cl, "nontrivial": merges and not identity_order}
 
 
@@ -268,5 +289,5 @@ SUBCHECKS = [
     SubCheck("save_load", o_io, strategy=io_cases, examples=(300, 1500), shards=(2, 8),
              rule="save then load returns the same keys and probabilities (single distributions and lists)"),
 ]
-SUBCHECKS[0].expected_classes = ["merging", "permuted_qubits", "multi_digit_outcome", "normalize_off", "form:tuple", "form:str", "form:comma"]
+SUBCHECKS[0].expected_classes = ["same_qubits_other_order", "merging", "permuted_qubits", "multi_digit_outcome", "normalize_off", "form:tuple", "form:str", "form:comma"]
 SUBCHECKS[3].expected_classes = ["single_subsystem_multi_digit", "multi_digit_outcome"]
